@@ -80,6 +80,7 @@ def check(run: Run) -> None:
     from . import c02
 
     cases += [{"src": t, "mode": "exec", "layer": "operand-matrix", "layout": "matrix", "variant": 0} for t in c02.operand_matrix() if in_domain(t)]
+    cases += [{"src": t, "mode": "eval", "layer": "eval-matrix", "layout": "matrix", "variant": 0} for t in c02.eval_matrix() if in_domain(t) and "$" not in t and "p'" not in t]
     # the file entry point must build the same trees: every 7th module-mode program (seed-shifted) and every layout variant of the corpus
     from ..core import SEED
 
